@@ -2,10 +2,154 @@
   Property C16 — grid and combinatorial enumerations: theorems about QEModel.C16.
 -/
 import QEModel.C16
+import QEProofs.Lemmas.C16Comb
 namespace QE.C16
+
+/-! ## comb_jit -/
 
 /-- outside the domain `0 ≤ k ≤ N` the jitted binomial is 0 -/
 theorem combJit_outside (N k : Int) (h : N < 0 ∨ k < 0 ∨ k > N) : combJit N k = 0 := by
   unfold combJit; simp [h]
+
+/-- **comb_jit, exact characterisation.** For `0 ≤ k ≤ N ≤ INTP_MAX`, with
+    `t = min k (N-k)` the number of loop iterations, call the input *bad* when
+    `N = INTP_MAX ∧ t ≥ 2` (the early return of the code) or when one of the products
+    `C(N,j)·(N−j)`, `j < t` (the product formed in iteration `j+1` of the loop, i.e.
+    `C(N,j'−1)·(N+1−j')` for `1 ≤ j' ≤ t`) exceeds `INTP_MAX`.
+    Then `combJit N k = C(N,k)` on good inputs and `= 0` on bad inputs. -/
+theorem combJit_spec (N k : Nat) (hk : k ≤ N) (hN : (N : Int) ≤ intpMax) :
+    let t := min k (N - k)
+    let bad := ((N : Int) = intpMax ∧ 2 ≤ t) ∨
+               ∃ j, j < t ∧ intpMax < (Nat.choose N j : Int) * ((N : Int) - (j : Int))
+    (¬ bad → combJit N k = (Nat.choose N k : Int)) ∧ (bad → combJit N k = 0) := by
+  intro t bad
+  have hun := combJit_unfold N k hk
+  have htN : 0 + t ≤ N := by simp only [t]; omega
+  by_cases h0 : t = 0
+  · have hb : ¬ bad := by
+      rintro (⟨_, h⟩ | ⟨j, hj, _⟩) <;> omega
+    refine ⟨fun _ => ?_, fun h => absurd h hb⟩
+    rw [hun, if_pos h0, ← choose_min N k hk]
+    show _ = ((Nat.choose N t : Nat) : Int)
+    rw [h0]; simp
+  by_cases h1 : t = 1
+  · have hb : ¬ bad := by
+      rintro (⟨_, h⟩ | ⟨j, hj, hov⟩)
+      · omega
+      · have : j = 0 := by omega
+        subst this
+        simp at hov; omega
+    refine ⟨fun _ => ?_, fun h => absurd h hb⟩
+    rw [hun, if_neg h0, if_pos h1, ← choose_min N k hk]
+    show _ = ((Nat.choose N t : Nat) : Int)
+    rw [h1]; simp
+  by_cases hmax : (N : Int) = intpMax
+  · refine ⟨fun h => absurd (Or.inl ⟨hmax, by omega⟩) h, fun _ => ?_⟩
+    rw [hun, if_neg h0, if_neg h1, if_pos hmax]
+  rw [hun, if_neg h0, if_neg h1, if_neg hmax]
+  have hstart : combLoop ((N : Int) + 1) t 1 1
+      = combLoop ((N : Int) + 1) t (0 + 1) (Nat.choose N 0 : Int) := by simp
+  show (¬ bad → combLoop ((N : Int) + 1) t 1 1 = _) ∧ (bad → combLoop ((N : Int) + 1) t 1 1 = 0)
+  rw [hstart]
+  constructor
+  · intro hb
+    rw [combLoop_ok N t 0 htN, Nat.zero_add, choose_min N k hk]
+    intro i _ hi
+    by_contra hc
+    exact hb (Or.inr ⟨i, by omega, by unfold combProd at hc; omega⟩)
+  · rintro (⟨h, _⟩ | ⟨j, hj, hov⟩)
+    · exact absurd h hmax
+    · exact combLoop_overflow N t 0 htN ⟨j, by omega, by omega, hov⟩
+
+/-- `comb_jit` returns the exact binomial coefficient or 0. -/
+theorem combJit_choose_or_zero (N k : Nat) (hk : k ≤ N) (hN : (N : Int) ≤ intpMax) :
+    combJit N k = (Nat.choose N k : Int) ∨ combJit N k = 0 := by
+  have h := combJit_spec N k hk hN
+  simp only at h
+  by_cases hb : ((N : Int) = intpMax ∧ 2 ≤ min k (N - k)) ∨
+      ∃ j, j < min k (N - k) ∧ intpMax < (Nat.choose N j : Int) * ((N : Int) - (j : Int))
+  · exact Or.inr (h.2 hb)
+  · exact Or.inl (h.1 hb)
+
+/-- `comb_jit` returns 0 on `0 ≤ k ≤ N` **only** when an intermediate product would
+    overflow or in the early-return case `N = INTP_MAX ∧ min k (N−k) ≥ 2` (in which the
+    code gives up although e.g. `C(N, N−2)`… would be formed from a wrapped `N+1`). -/
+theorem combJit_eq_zero_iff (N k : Nat) (hk : k ≤ N) (hN : (N : Int) ≤ intpMax) :
+    combJit N k = 0 ↔
+      (((N : Int) = intpMax ∧ 2 ≤ min k (N - k)) ∨
+        ∃ j, j < min k (N - k) ∧ intpMax < (Nat.choose N j : Int) * ((N : Int) - (j : Int))) := by
+  have h := combJit_spec N k hk hN
+  simp only at h
+  constructor
+  · intro hz
+    by_contra hb
+    have := h.1 hb
+    rw [hz] at this
+    have hpos := Nat.choose_pos hk
+    omega
+  · exact h.2
+
+/-- Whenever the final result fits (`C(N,k) ≤ INTP_MAX`) and `N < INTP_MAX`, no intermediate
+    product `C(N,j)(N−j)`, `j < min k (N−k)`, can be excluded a priori — but if all of them
+    fit, the answer is exact. (Convenience form of `combJit_spec` used by the rank theorems.) -/
+theorem combJit_exact (N k : Nat) (hk : k ≤ N) (hN : (N : Int) < intpMax)
+    (hfit : ∀ j, j < min k (N - k) →
+      (Nat.choose N j : Int) * ((N : Int) - (j : Int)) ≤ intpMax) :
+    combJit N k = (Nat.choose N k : Int) := by
+  refine (combJit_spec N k hk (Int.le_of_lt hN)).1 ?_
+  rintro (⟨h, _⟩ | ⟨j, hj, hov⟩)
+  · omega
+  · have := hfit j hj; omega
+
+/-- **No wrap-around.** On all `int64` inputs the model on unbounded integers (`combJit`)
+    equals the same program with every arithmetic result reduced to `int64` (`combJitW`):
+    every intermediate value of `comb_jit` lies in `[0, INTP_MAX]`. -/
+theorem combJitW_eq_combJit (N k : Int) (hN0 : -(2 ^ 63) ≤ N) (hN : N ≤ intpMax)
+    (hk0 : -(2 ^ 63) ≤ k) (hk : k ≤ intpMax) : combJitW N k = combJit N k := by
+  unfold combJitW combJit
+  by_cases h : N < 0 ∨ k < 0 ∨ k > N
+  · rw [if_pos h, if_pos h]
+  · rw [if_neg h, if_neg h]
+    have hw : wrap64 (N - k) = N - k := wrap64_id _ (by omega) (by omega)
+    simp only [hw]
+    by_cases h0 : min k (N - k) = 0
+    · rw [if_pos h0, if_pos h0]
+    rw [if_neg h0, if_neg h0]
+    by_cases h1 : min k (N - k) = 1
+    · rw [if_pos h1, if_pos h1]
+    rw [if_neg h1, if_neg h1]
+    by_cases hm : N = intpMax
+    · rw [if_pos hm, if_pos hm]
+    rw [if_neg hm, if_neg hm]
+    have hw2 : wrap64 (N + 1) = N + 1 := wrap64_id _ (by omega) (by omega)
+    rw [hw2]
+    apply combLoopW_eq (N + 1) (by omega) _ 1 1 (Nat.le_refl _) _ (by decide) (by decide)
+    have : ((min k (N - k)).toNat : Int) = min k (N - k) := Int.toNat_of_nonneg (by omega)
+    omega
+
+example : combJit 10 3 = 120 := by decide
+example : combJit 66 33 = 7219428434016265740 := by decide
+example : combJit 68 34 = 0 := by decide
+example : combJit intpMax intpMax = 1 := by decide
+example : combJit intpMax (intpMax - 1) = intpMax := by decide
+example : combJit intpMax (intpMax - 2) = 0 := by decide
+/-- the "bad" predicate of `combJit_spec` is non-trivially true … -/
+example : ∃ j, j < min 34 (68 - 34) ∧
+    intpMax < (Nat.choose 68 j : Int) * ((68 : Int) - (j : Int)) := ⟨33, by decide, by decide⟩
+
+/-! ## exact binomials used by the non-jitted functions -/
+
+/-- the driver's fast binomial is `Nat.choose` -/
+theorem chooseFast_eq_choose' (n k : Nat) : chooseFast n k = Nat.choose n k :=
+  chooseFast_eq_choose n k
+
+/-- the recursive reference binomial is `Nat.choose` -/
+theorem chooseNat_eq_choose' (n k : Nat) : chooseNat n k = Nat.choose n k :=
+  chooseNat_eq_choose n k
+
+/-- `num_compositions(m, n) = C(n+m−1, m−1)` -/
+theorem numCompositions_eq (m n : Nat) :
+    numCompositions m n = Nat.choose (n + m - 1) (m - 1) :=
+  chooseFast_eq_choose _ _
 
 end QE.C16
